@@ -214,11 +214,13 @@ func VerifC13RenewRelease(n int, sidKind int) {
 	verifAssert(err == nil, "client-created")
 	leased := verifBytes("leased", 4)
 	sid := verifBytes("lease.sid", 4)
-	mk := func(t dhcpv4.MessageType) *dhcpv4.DHCPv4 {
+	mk := func(t dhcpv4.MessageType, yi []byte, tag string) *dhcpv4.DHCPv4 {
 		return &dhcpv4.DHCPv4{OpCode: dhcpv4.OpcodeBootReply, HWType: 1, TransactionID: dhcpv4.TransactionID{9, 9, 9, 9}, ClientHWAddr: verifHW,
-			YourIPAddr: net.IP(leased), Flags: verifU16("ack.flags"), Options: dhcpv4.Options{53: []byte{byte(t)}, 54: sid}}
+			YourIPAddr: net.IP(yi), Flags: verifU16(tag + ".flags"), Options: dhcpv4.Options{53: []byte{byte(t)}, 54: sid}}
 	}
-	lease := &Lease{Offer: mk(dhcpv4.MessageTypeOffer), ACK: mk(dhcpv4.MessageTypeAck)}
+	// the address the server finally acknowledged (the leased one) need not be the one it offered
+	offered := verifBytes("offered", 4)
+	lease := &Lease{Offer: mk(dhcpv4.MessageTypeOffer, offered, "offer"), ACK: mk(dhcpv4.MessageTypeAck, leased, "ack")}
 	nl, err := c.Renew(newVerifCtx(), lease)
 	verifAssert(len(sc.seen) == 1, "renew-sends-one-request")
 	if len(sc.seen) == 1 {
